@@ -92,6 +92,10 @@ def sendToContact(self: Obj("AxolotlSendLayer"), node: Obj("ProtocolTreeNode")):
     # the payload goes to the cipher, once, and to nothing else; the envelope is built from the cipher's output
     ensures(n_events("manager.encrypt") == 1 and event_arg("manager.encrypt", 0, 2) == pure_child(node, "proto").data)
     ensures(n_events("EncProtocolEntity") == 1 and event_arg("EncProtocolEntity", 0, 2) == getter("ciphertext.serialize", event_result("manager.encrypt", 0)))
+    # ... as a version-2 msg / pkmsg envelope (by the kind of ciphertext the session produced) carrying the payload's media type
+    ensures(event_arg("EncProtocolEntity", 0, 1) == 2 and (event_arg("EncProtocolEntity", 0, 0) == "msg" or event_arg("EncProtocolEntity", 0, 0) == "pkmsg")
+            and event_arg("EncProtocolEntity", 0, 3) == attr(pure_child(node, "proto"), "mediatype")
+            and event_arg("manager.encrypt", 0, 1) == attr(node, "to").split("@")[0])
     ensures(n_events("sendEncEntities") == 1 and same_obj(event_arg("sendEncEntities", 0, 0), node) and n_events("toLower") == 0)
     propagates("*")
 
@@ -107,7 +111,8 @@ opaque("yowsup/layers/axolotl/protocolentities/message_encrypted.py", "Encrypted
 def sendEncEntities(self: Obj("AxolotlSendLayer"), node: Obj("ProtocolTreeNode"), encEntities: Opaque("encs"), participant: Opt(Str)):
     # exactly one stanza goes down: the serialisation of the encrypted envelope built from the enc entities - not the plaintext stanza
     ensures(n_events("toLower") == 1 and same_obj(event_arg("toLower", 0), event_result("EncryptedMessage.toNode", 0)) and n_events("toUpper") == 0)
-    ensures(n_events("EncryptedMessage") == 1 and same_obj(event_arg("EncryptedMessage", 0, 0), encEntities))
+    ensures(n_events("EncryptedMessage") == 1 and same_obj(event_arg("EncryptedMessage", 0, 0), encEntities)
+            and event_arg("EncryptedMessage", 0, 1) == attr(node, "type"))         # the envelope keeps the message type (text / media)
     # the original is kept for retry requests unless this IS a retry directed at one participant
     ensures(n_events("enqueueSent") == (1 if participant is None else 0))
     ensures(implies(participant is None, same_obj(event_arg("enqueueSent", 0, 0), node) and at_event("toLower", 0, lambda: n_events("enqueueSent") == 1)))
@@ -151,6 +156,8 @@ def mgr_encrypt(self: Obj("AxolotlManager"), recipient_id: Str, message: Bytes) 
 def mgr_group_encrypt(self: Obj("AxolotlManager"), groupid: Str, message: Bytes) -> Opaque("ciphertext"):
     ensures(n_events("cipher.encrypt") == 1 and is_padded(event_arg("cipher.encrypt", 0, 1), message)
             and same_obj(result, event_result("cipher.encrypt", 0)))
+    # with OUR sender key for THIS group
+    ensures(n_events("get_group_cipher") == 1 and event_arg("get_group_cipher", 0, 0) == groupid and event_arg("get_group_cipher", 0, 1) == self._username)
     propagates("*")
 
 
@@ -200,6 +207,17 @@ def send_layer_receive(self: Obj("AxolotlSendLayer"), protocolTreeNode: Obj("Pro
                     and truthy(event_result("getEnqueuedMessageNode", 0)) and attr(protocolTreeNode, "type") == "retry",
                     n_events("toLower") == 1 and n_events("getKeysFor") == 1 and n_events("toUpper") == 0
                     and same_obj(event_arg("toLower", 0), event_result("entity.toProtocolTreeNode", 0))))
+    # ... and when the requester's keys have arrived: the queued ORIGINAL is encrypted again for that retry (once); a reported error
+    # (unknown user, identity refused) -> nothing is re-sent
+    ensures(implies(not is_reply(old(self.iqRegistry), protocolTreeNode) and protocolTreeNode.tag == "receipt" and n_events("getKeysFor") == 1,
+                    in_closure(event_arg("getKeysFor", 0, 1), lambda successJids, errors: n_events("processPlaintextNodeAndSend") == 1
+                               and same_obj(event_arg("processPlaintextNodeAndSend", 0, 0), outer(event_result("getEnqueuedMessageNode", 0)))
+                               and same_obj(event_arg("processPlaintextNodeAndSend", 0, 1), outer(event_result("retry.fromNode", 0))),
+                               argtypes=(ListObj("jid"), DictObjObj), given=lambda successJids, errors: len(errors) == 0 and len(successJids) == 1,
+                               total=True)
+                    and in_closure(event_arg("getKeysFor", 0, 1), lambda successJids, errors: n_events("processPlaintextNodeAndSend") == 0
+                                   and n_events("toLower") == 0,
+                                   argtypes=(ListObj("jid"), DictObjObj), given=lambda successJids, errors: len(errors) > 0, total=True)))
     ensures(implies(not is_reply(old(self.iqRegistry), protocolTreeNode) and protocolTreeNode.tag == "receipt"
                     and not (truthy(event_result("getEnqueuedMessageNode", 0)) and attr(protocolTreeNode, "type") == "retry"),
                     n_events("toUpper") == 1 and same_obj(event_arg("toUpper", 0), protocolTreeNode) and n_events("toLower") == 0 and n_events("getKeysFor") == 0))
